@@ -3,6 +3,7 @@ import XalanModel.C19.XVec
 import XalanModel.C19.XList
 import XalanModel.C19.Arena
 import XalanModel.C19.XDeque
+import XalanModel.C19.XBVec
 import Driver.Util
 /-
 xm_c19: (a) replays container operation logs on the allocation-explicit models (same request lines as
@@ -29,6 +30,7 @@ structure St where
   arena : Option Arena := none
   skipPending : Bool := false
   deque : XDeque := { bs := 1 }
+  bvec : XBVec := {}
   popNull : Bool := false
   dead : Bool := false
   trace : Option Ledger := none        -- trace mode: ledger so far (none = trace rejected)
@@ -89,6 +91,30 @@ def arenaStep (s : St) : List String → St × String
       if r.1 == .ub then ({ s with dead := true }, tail s.l .ub (showArena a false))
       else ({ s with arena := none, l := r.2 }, tail r.2 .ok "destroyed")
     | none => (s, "bad")
+  | _ => (s, "bad")
+
+def showBVec (v : XBVec) : String :=
+  s!"{v.elems.length} {v.cap} :" ++ String.join (v.elems.map fun x => s!" {x.1}")
+
+def bvReply (s : St) (r : Out × XBVec × Ledger) : St × String :=
+  ({ s with bvec := r.2.1, l := r.2.2, dead := r.1 == .ub }, tail r.2.2 r.1 (showBVec r.2.1))
+
+def bvecStep (s : St) : List String → St × String
+  | ["push", x] => match x.toInt? with
+    | some x => bvReply s (s.bvec.pushBack false x s.l)
+    | none => (s, "bad")
+  | ["reserve", n] => match n.toNat? with
+    | some n => bvReply s (s.bvec.reserve false n s.l)
+    | none => (s, "bad")
+  | ["pop"] => bvReply s (s.bvec.popBack s.l)
+  | ["clear"] => bvReply s (s.bvec.clear s.l)
+  | ["resize", n, x] => match n.toNat?, x.toInt? with
+    | some n, some x => bvReply s (s.bvec.resize false n x s.l)
+    | _, _ => (s, "bad")
+  | ["copy"] => bvReply s (s.bvec.copyProbe false s.l)
+  | ["destroy"] =>
+    let l1 := s.bvec.destroy s.l
+    ({ s with bvec := {}, l := l1 }, tail l1 .ok "destroyed")
   | _ => (s, "bad")
 
 def showDeque (d : XDeque) : String :=
@@ -162,6 +188,7 @@ def step (s : St) (ws : List String) : St × String :=
     | ["v", "ctp"] => idiomReply s (createThenPush createThing s.vec s.l)
     | "a" :: rest => arenaStep s rest
     | "d" :: rest => dequeStep s rest
+    | "bv" :: rest => bvecStep s rest
     | ["v", "destroy"] =>
       -- ~XalanTransformer: XalanDestroy every object the vector holds, then ~XalanVector
       let held := s.created.filter fun c => s.vec.items.contains (Int.ofNat c.1)
